@@ -540,6 +540,25 @@ impl<'tcx> Dumper<'tcx> {
                         );
                         let hex: String = bytes.iter().map(|b| format!("{:02x}", b)).collect();
                         items.push(("ptr_bytes", jstr(&hex)));
+                    } else if let rustc_middle::mir::interpret::GlobalAlloc::Static(sdid) =
+                        tcx.global_alloc(prov.alloc_id())
+                    {
+                        // a reference to an immutable `static`: its initializer is a compile-time constant
+                        let sty = tcx.type_of(sdid).instantiate_identity().skip_norm_wip();
+                        let frozen = sty.is_freeze(tcx, TypingEnv::fully_monomorphized());
+                        if !tcx.is_mutable_static(sdid) && !tcx.is_foreign_item(sdid) && frozen {
+                            if let Ok(alloc) = tcx.eval_static_initializer(sdid) {
+                                let a = alloc.inner();
+                                let start = off.bytes() as usize;
+                                if start <= a.len() && a.provenance().ptrs().is_empty() {
+                                    let bytes =
+                                        a.inspect_with_uninit_and_ptr_outside_interpreter(start..a.len());
+                                    let hex: String = bytes.iter().map(|b| format!("{:02x}", b)).collect();
+                                    items.push(("ptr_bytes", jstr(&hex)));
+                                    items.push(("static", jstr(&self.path(sdid))));
+                                }
+                            }
+                        }
                     }
                 }
             }
